@@ -546,3 +546,48 @@ def rule_site_table(ck, facts, R):
                 ck.ok(R, "table|delay_sizes", {"index": "cursor " + CURSOR, "advanced_through": advancing})
             else:
                 ck.bad(R, "cursor-never-advances|delay_sizes", "%s indexes FuncProto::delay_sizes with the top of %s, which the VM only ever pushes (0) and pops (%s): every `delay` of a function runs with the ring length of the function's *first* delay, while its cell was sized (and WASM runs it) with its own length: wrong delay times on the VM, and reads/writes outside the cell when a later delay is shorter than the first" % (f.short, CURSOR, sorted(muts) or "no mutable access at all"), f.where(t))
+
+
+# --------------------------------------------------------------------------------------------------
+# the scheduler exists twice (VM audio worker, WASM handle); both keep BinaryHeap<Reverse<Task>> whose Ord looks at
+# the deadline only, so the order of simultaneous tasks is whatever the heap's algorithms make of the operation
+# sequence.  The two siblings must drive the heap with the same operations.
+HEAP_INSERT = ("push", "extend", "append", "extend_one", "from", "from_iter", "extend_from_slice")
+HEAP_REMOVE = ("pop", "drain", "into_sorted_vec", "into_vec", "into_iter", "retain", "drain_sorted", "into_iter_sorted", "clear")
+
+
+def rule_scheduler_heap(ck, facts, R):
+    ck.rule(R, "the VM scheduler worker and the WASM scheduler handle keep their tasks in a BinaryHeap ordered by deadline only; the order of tasks with equal deadlines is fixed by the heap operations used, so both implementations insert and remove with the same BinaryHeap operations")
+    sc = facts.crate("mimium_scheduler")
+    ck.require(R, sc is not None, "anchor|scheduler-crate", "crate mimium_scheduler not in the analysed workspace")
+    if sc is None:
+        return
+    ops = {"vm": {}, "wasm": {}}
+    for f in sc.fns:
+        side = "wasm" if "wasm_handle::" in f.path else "vm" if "scheduler::" in f.path else None
+        if side is None or f.kind == "promoted" or "::test" in f.path:
+            continue
+        for b, t in f.calls():
+            c = callee(t) or ""
+            if "BinaryHeap" not in c:
+                continue
+            n = c.split("::")[-1]
+            ops[side].setdefault(n, []).append((f, t))
+    for side in ("vm", "wasm"):
+        ck.require(R, any(n in HEAP_INSERT for n in ops[side]) and any(n in HEAP_REMOVE for n in ops[side]), "anchor|scheduler-heap-%s" % side, "the %s scheduler no longer inserts into / removes from a BinaryHeap (anchor lost)" % side)
+    for what, group in (("insert", HEAP_INSERT), ("remove", HEAP_REMOVE)):
+        a = sorted(n for n in ops["vm"] if n in group)
+        b = sorted(n for n in ops["wasm"] if n in group)
+        if a == b:
+            ck.ok(R, "scheduler-heap|%s" % what, {"vm": a, "wasm": b})
+        else:
+            odd = [n for n in a if n not in b] or [n for n in b if n not in a]
+            side = "vm" if any(n in ops["vm"] and n not in ops["wasm"] for n in odd) else "wasm"
+            f, t = ops[side][odd[0]][0]
+            ck.bad(R, "scheduler-heap|%s" % what, "the VM scheduler uses BinaryHeap::{%s} and the WASM scheduler BinaryHeap::{%s} to %s tasks: tasks with equal deadlines leave the two heaps in different orders (the Ord of Task compares the deadline only), so simultaneous tasks with non-commuting effects produce different samples" % (", ".join(a), ", ".join(b), what), f.where(t))
+    # unknown heap operations are reported rather than ignored
+    for side in ("vm", "wasm"):
+        for n in sorted(ops[side]):
+            if n not in HEAP_INSERT and n not in HEAP_REMOVE and n not in ("new", "default", "peek", "len", "is_empty", "with_capacity", "peek_mut", "iter", "capacity", "reserve"):
+                f, t = ops[side][n][0]
+                ck.bad(R, "scheduler-heap|unclassified|%s|%s" % (side, n), "BinaryHeap::%s is used by the %s scheduler and is not classified as insertion / removal / neutral" % (n, side), f.where(t))
